@@ -189,6 +189,7 @@ def _run_idx(case):
         s = Session()
         ds = s.open_dataset(path, 'r', 'd')
         f = ds['df']['f']
+        assert type(f).__name__ == 'IndexedStringField' and f.indexed
         assert int(f.chunksize) == case['cs']
         rof = fld.IndexedStringField(s, ds['df']._h5group['f'], None, write_enabled=False)
         re = _observe_idx(f, rof.data, case.get('extra', []))
@@ -275,6 +276,16 @@ def _run_plain(case):
         s = Session()
         ds = s.open_dataset(path, 'r', 'd')
         f = ds['df']['f']
+        # Session.get re-wraps the group by its fieldtype attribute
+        want = {'numeric': 'NumericField', 'timestamp': 'TimestampField', 'fixed': 'FixedStringField',
+                'categorical': 'CategoricalField'}[ft]
+        assert type(f).__name__ == want, (type(f).__name__, want)
+        if ft == 'numeric':
+            assert f._nformat == dt
+        elif ft == 'fixed':
+            assert int(f._length) == int(dt[1:])
+        elif ft == 'categorical':
+            assert f.nformat == dt
         return [sess, _observe_plain(f, case)]
     finally:
         try:
@@ -442,6 +453,8 @@ def features(case, model):
             f.add('bytes-one-past-chunk')
         if case.get('extra'):
             f.add('out-of-range-read')
+        if case['cs'] == 1 << 20:
+            f.add('default-chunksize-1<<20')
     else:
         f.add(('%s-%s' % (case['ft'], 'h5' if case['h5'] else 'mem')))
         f.add('dtype:' + case['dt'])
@@ -583,6 +596,11 @@ def gen_idx(tier, rng):
             parts.append(seq[i:c]); i = c
         h5 = 1 if rng.random() < 0.25 else 0
         yield {'k': 'idx', 'h5': h5, 'cs': cs, 'ops': [['p', p] for p in parts] + [['c']], 'extra': []}
+    # 4b. the production chunksize (1 << 20): nothing is flushed before complete()
+    for h5 in (0, 1):
+        for seq in ([], ['a'], ['', 'é', 'b€'], ['hello'] * 7 + ['']):
+            yield {'k': 'idx', 'h5': h5, 'cs': 1 << 20, 'ops': [['w', seq]], 'extra': []}
+            yield {'k': 'idx', 'h5': h5, 'cs': 1 << 20, 'ops': [['p', seq[:1]], ['p', seq[1:]], ['c']], 'extra': []}
     # 5. outside the property (no claim, model faithfulness only): reads beyond the range, clear with staged data
     for h5 in (0, 1):
         for seq in ([], ['a'], ['a', '', 'é']):
